@@ -201,6 +201,24 @@ def directed(toks, r):
         j = r.choice(bases)
         t[j + 1:j + 1] = [',', 'Extra']
         out.append(('second-base', t))
+    # `enum E { a, b }` -> `enum E { a = 4, b }`: C++ spelling copied from a header, not in the dialect (h1_C07_1)
+    enums = []
+    for j, x in enumerate(t0):
+        if x == 'enum':
+            k = j + 1
+            while k < n and t0[k] not in ('{', ';'):
+                k += 1
+            if k < n and t0[k] == '{':
+                e = k + 1
+                while e < n and t0[e] != '}':
+                    if ident(t0[e]):
+                        enums.append(e)
+                    e += 1
+    if enums:
+        t = list(t0)
+        j = r.choice(enums)
+        t[j + 1:j + 1] = ['=', r.choice(['1', '4', 'zz_other', '0x10'])]
+        out.append(('enumerator-initialiser', t))
     return out
 
 
